@@ -1455,7 +1455,11 @@ def parse_log(log, dop):
             i += 1
             if i < len(log) and log[i][0] == "g":      # the refinement starts: g_left (and g_right for DOP853)
                 gl0 = log[i][2]
-                i += 2 if dop else 1
+                # g_left, possibly followed by further event evaluations before the first dense evaluation (the DOP853 loops used to
+                # evaluate an unused g_right): skip every event record up to the first dense record
+                i += 1
+                while i < len(log) and log[i][0] == "g":
+                    i += 1
                 pairs = []
                 xs = []
                 while i < len(log):
@@ -1468,6 +1472,8 @@ def parse_log(log, dop):
                             i += 1
                     else:
                         raise ValueError("unexpected record inside the refinement: %r" % (log[i],))
+                # the hit is the last point at which the dense output was evaluated (a refiner may return the midpoint it already has
+                # instead of evaluating the dense output there once more)
                 refine = {"gl0": gl0, "pairs": pairs, "x_hit": xs[-1] if xs else None, "n_dense": len(xs)}
         else:
             raise ValueError("unexpected record %r at %d" % (e, i))
@@ -1550,7 +1556,7 @@ def corr_replay(ctx):
                 mismatch("replay:" + driver, "model evaluates the event function at θ=%s which the code never did" % ans[1], dict(info, request=lines[li][:400]))
                 continue
             x, tm, iters = pr(ans[0]), pr(ans[1]), int(ans[3])
-            ok = (F(refine["x_hit"]) == x and iters == len(refine["pairs"]) and refine["n_dense"] == iters + 1
+            ok = (F(refine["x_hit"]) == x and iters == len(refine["pairs"])
                   and abs(float(tm) - t) <= 4e-16 * (1 + abs(t)))
             if not ok:
                 mismatch("replay:" + driver, "bisection replay: code (θ=%r, %d evaluations, t=%.17g) model (θ=%s, %d, t=%.17g, exit %s)" % (
